@@ -21,3 +21,7 @@ G('dr.dround_ddur.MO', 'dround', 'dround_ddur', ['C16'], ins=D_IN, fix={'in_dt':
   replace=['__get_mdays', 'dt_dur_neg_p'], sweep=SWD, timeout=600)
 G('dr.dround_ddur.D', 'dround', 'dround_ddur', ['C16'], ins=D_IN, fix={'in_dt': 'DT_DURD'}, setup=D_SET, call='dround_ddur(d, dur, in_next & 1)', ret='struct dt_d_s',
   replace=['__get_mdays'], sweep=SWD, timeout=600)
+G('dr.dround_ddur.WD', 'dround', 'dround_ddur', ['C16'], ins=[('uint32_t', 'in_n'), (U, 'in_w'), (U, 'in_neg'), (U, 'in_next')],
+  setup='struct dt_d_s d = {DT_DUNK}; d.typ = DT_DAISY; d.daisy = in_n; struct dt_ddur_s dur = {DT_DURUNK}; dur.durtyp = DT_DURYMCW; dur.ymcw.w = in_w; dur.neg = in_neg & 1;',
+  call='dround_ddur(d, dur, in_next & 1)', ret='struct dt_d_s', replace=['dt_dconv', 'dt_get_wday', 'dt_dur_neg_p'], timeout=600,
+  sweep={'in_n': '8 + RND % 911260', 'in_w': 'RND % 9', 'in_neg': 'RND % 2', 'in_next': 'RND % 2'})
